@@ -120,6 +120,13 @@ func policy(ps PeerSpec, tor *vh.Torrent, sentBad *atomic.Int64) *vh.SeederPolic
 			if served == ps.K || ps.K == 0 {
 				return []vh.Msg{corruptMsg(s, req)}, true
 			}
+		case "corruptclose": // corrupt the last block of a piece and hang up at once: the ban must not depend on the peer staying
+			if int(req.Begin)+int(req.Length) >= tor.PieceLenOf(int(req.Index)) || int(req.Begin)+int(req.Length) >= tor.NonPadLen(int(req.Index)) {
+				m := corruptMsg(s, req)
+				s.Send(m)
+				s.Close()
+				return nil, true
+			}
 		case "wrongpiece":
 			if served == ps.K || ps.K == 0 {
 				m := s.HonestPiece(req)
@@ -456,7 +463,7 @@ func run(sc Scenario, dir string) {
 			continue
 		}
 		r.seeds = append(r.seeds, s)
-		if ps.Policy == "corrupt" || ps.Policy == "wrongpiece" {
+		if ps.Policy == "corrupt" || ps.Policy == "wrongpiece" || ps.Policy == "corruptclose" {
 			ip := ps.IP
 			banned := hub.Wait(r.id, 6*time.Second, func(sn *torrent.VerifSnap) bool {
 				for _, b := range sn.Banned {
